@@ -65,6 +65,9 @@ pub struct UploadCase {
     /// "completion" | "abort"
     pub ending: String,
     pub chunks: Vec<usize>,
+    /// the connection accepts at most this many bytes per write
+    #[serde(default)]
+    pub write_limit: Option<usize>,
 }
 
 fn content(seed: u8, size: usize) -> Vec<u8> {
@@ -158,7 +161,8 @@ pub fn check_upload(t: &Table, c: &UploadCase) -> CheckResult {
     if expect_err_at.is_none() {
         script.push(if c.ending == "abort" { vec![0x06, 0x1e, 0x01, 0x6c] } else { vec![0x06, 0x0f, 0x00] });
     }
-    let peer = Peer::scripted(script.clone(), vec![0xde, 0xad], c.chunks.clone());
+    let mut peer = Peer::scripted(script.clone(), vec![0xde, 0xad], c.chunks.clone());
+    peer.write_limit = c.write_limit;
     let run = guard(|| run_write_file(dir.path().to_path_buf(), c.password as usize, c.block, peer, script.len() + 3)).map_err(|p| Violation::new("upload", "C11 kind=panic".to_string(), p, input.clone()))?;
     let show = |i: &Option<Result<String, String>>| match i {
         None => "None".to_string(),
@@ -457,7 +461,8 @@ pub fn upload_case_strategy(max_size: usize) -> BoxedStrategy<UploadCase> {
                         off += block as usize;
                     }
                 }
-                return UploadCase { files, block, password, requests, ending: ending.to_string(), chunks };
+                let write_limit = match sequential % 7 { 0 => Some(1usize), 1 => Some(64), 2 => Some(1000), _ => None };
+                return UploadCase { files, block, password, requests, ending: ending.to_string(), chunks, write_limit };
             }
             let requests: Vec<Req> = reqs
                 .iter()
@@ -472,7 +477,7 @@ pub fn upload_case_strategy(max_size: usize) -> BoxedStrategy<UploadCase> {
                     Req { id, offset, malformed: mal.to_string() }
                 })
                 .collect();
-            UploadCase { files, block, password, requests, ending: ending.to_string(), chunks }
+            UploadCase { files, block, password, requests, ending: ending.to_string(), chunks, write_limit: None }
         })
         .boxed()
 }
@@ -517,6 +522,9 @@ pub fn run(tier: Tier) -> i32 {
             }
             if c.requests.iter().any(|r| present.iter().any(|(id, size)| *id == r.id && r.offset as usize >= *size)) {
                 st.class("offset-at-or-after-eof");
+            }
+            if c.write_limit.is_some() {
+                st.class("short-writes");
             }
             if files.iter().any(|f| f.symlink && f.which < 100) {
                 st.class("recognised-file-is-a-symbolic-link");
